@@ -129,6 +129,12 @@ def gen_api_case(rng):
     if rng.random() < 0.4:  # an ambiguous or unknown spelling must not be accepted
       bad = rng.choice([sel.split('.')[-1], 'zz.' + sel])
       ops.append({'op': 'bind', 'scope': '', 'sel': bad, 'arg': arg, 'val': 1, '_form': 'tuple', 'block': False})
+      if not bad.startswith('zz.') and rng.random() < 0.6:
+        # the same (known, possibly ambiguous) spelling in config text parsed with skip_unknown: known names are
+        # never skipped, so it is judged exactly as above
+        form = rng.choice(['text', 'block'])
+        ops.append({'op': 'bind', 'scope': '', 'sel': bad, 'arg': arg, 'val': 2, '_form': form, 'block': form == 'block',
+                    '_skip': rng.choice([True, [bad], (bad, 'zz.q')])})
     if rng.random() < 0.5:  # get_bindings / get_configurable through a spelling: unique, ambiguous or unknown
       parts = sel.split('.')
       q = rng.choice(['.'.join(parts[-k:]) for k in range(1, len(parts) + 1)] + ['zz.' + sel])
